@@ -8,6 +8,7 @@ seconds has passed iff `t·10⁹ < nowNs` (`time.Unix(t,0).Before(now)`), so a s
 -/
 import ArvVerif.Proofs.C07_Perturb
 import ArvVerif.Proofs.C07_Manifest
+import ArvVerif.Proofs.C07_Serve
 namespace ArvVerif.C07
 variable (mac : Str → Str → List UInt8)
 
@@ -48,8 +49,8 @@ theorem C07_same_as_api_server (loc tok key : Str) (exp ttlSecs frac : Nat)
   have hke : key.isEmpty = false := by cases key <;> simp_all
   have hte : tok.isEmpty = false := by cases tok <;> simp_all
   simp [signLocator, hke, hte, sigHint, makePermSignature, sigMessage, ttlHex, httl, hi,
-    fmt08x_eq_natHex hexp, Ref.signLocator, Ref.generateSignature, Ref.message, hashPart,
-    List.append_assoc]
+    fmt08x_eq_natHex hexp, Ref.signLocator, Ref.signLocatorTs, Ref.generateSignature, Ref.message,
+    hashPart, List.append_assoc]
 
 example : (2 : Nat) ^ 28 ≤ 0x6ab35692 ∧ (1209600 : Int) * 1000000000 + 0 = 1209600000000000 := by decide
 
@@ -446,6 +447,176 @@ example : ∃ cfg : KSConfig, cfg.key ≠ [] ∧ 1000000000 ≤ cfg.ttlNs ∧
     ((1790138044 : Int) * 1000000000 + cfg.ttlNs) / 1000000000 < 2 ^ 32 :=
   ⟨⟨true, 1209600 * 1000000000, ['k']⟩, by decide, by decide, by decide⟩
 
+
+/-! ### keepstore: from the HTTP request to `handleGET` -/
+
+/-- `GetAPIToken`: for `OAuth2`/`Bearer`, one or more whitespace characters, then a token that
+does not itself start with whitespace and contains no newline, the token is returned exactly
+(whatever else it contains: `@`, `+`, `/`, non-ASCII bytes); no header, or a header that does not
+start with one of the two scheme words (case-sensitive), gives the empty token. -/
+theorem C07_token_from_header :
+    (∀ (scheme tok ws : Str),
+      (scheme = ['O', 'A', 'u', 't', 'h', '2'] ∨ scheme = ['B', 'e', 'a', 'r', 'e', 'r']) →
+      ws ≠ [] → (∀ c ∈ ws, isSpace c = true) →
+      (∀ c r, tok = c :: r → isSpace c = false) → (∀ c ∈ tok, c ≠ '\n') →
+      getAPIToken (some (scheme ++ ws ++ tok)) = tok) ∧
+    getAPIToken none = [] ∧
+    (∀ v, ['O', 'A', 'u', 't', 'h', '2'].isPrefixOf v = false →
+      ['B', 'e', 'a', 'r', 'e', 'r'].isPrefixOf v = false → getAPIToken (some v) = []) :=
+  ⟨fun scheme tok ws hs hws hall h1 h2 => getAPIToken_scheme scheme tok hs ws hws hall h1 h2, rfl,
+    getAPIToken_no_scheme⟩
+
+example : getAPIToken (some "Bearer  v2/zzzzz-gj3su-000000000000000/a@b+c".toList) =
+    "v2/zzzzz-gj3su-000000000000000/a@b+c".toList ∧
+    getAPIToken (some "bearer tok".toList) = [] ∧ getAPIToken (some "Bearertok".toList) = [] := by decide
+
+/-- The route variable is the first 32 characters of the path (lowercase hex), and a routed
+locator contains no `/`. -/
+theorem C07_route_hash {loc h : Str} (e : routeHash loc = some h) :
+    h = loc.take 32 ∧ h.length = 32 ∧ h.all isLowerHex = true ∧ ∀ c ∈ loc, c ≠ '/' :=
+  routeHash_some e
+
+/-- From the request: with blob signing on, a GET reaches a volume only if the decoded URL path
+is in canonical form (otherwise mux answers 301 before any route), contains no further `/`, and
+its locator verifies for the token taken from the Authorization header. Dot segments, doubled or
+trailing slashes and percent-escapes therefore cannot lead around the signature gate. -/
+theorem C07_serve_requires_signature (cfg : KSConfig) (path : Str) (hdr : Option Str) (h : Str)
+    (nowNs : Int) (hsign : cfg.blobSigning = true)
+    (hserve : serveGET mac cfg path hdr nowNs = .handled (.readVolume h)) :
+    cleanPath path = path ∧ (∀ c ∈ path.drop 1, c ≠ '/') ∧
+    verifySignature mac (path.drop 1) (getAPIToken hdr) cfg.ttlNs cfg.key nowNs = .ok ∧
+    ∃ sig e, IsSignedLocator (path.drop 1) h sig e := by
+  unfold serveGET at hserve
+  split at hserve
+  · simp at hserve
+  · rename_i hc
+    simp only [ServeOutcome.handled.injEq] at hserve
+    have hclean : cleanPath path = path := by simpa using hc
+    obtain ⟨hok, hs⟩ := (C07_get_requires_signature mac cfg (path.drop 1) (getAPIToken hdr) h nowNs hsign).1 hserve
+    refine ⟨hclean, ?_, hok, hs⟩
+    unfold handleGET at hserve
+    cases hr : routeHash (path.drop 1) with
+    | none => rw [hr] at hserve; simp at hserve
+    | some h0 => exact (routeHash_some hr).2.2.2
+
+example : cleanPath "//a/./b/../c/".toList = "/a/c/".toList ∧ cleanPath "/..".toList = ['/'] ∧
+    cleanPath "/x+y".toList = "/x+y".toList ∧ pctDecode "/a%2Fb%41".toList = some "/a/bA".toList ∧
+    pctDecode "/a%zz".toList = none := by decide
+
+/-- PUT then GET: the locator `handlePUT` writes back is routed, is not taken for a remote
+request, passes the signature gate for the same token at that moment, and `handleGET` reads the
+volume for exactly the hash that was PUT (hypotheses as in `C07_put_reply_verifies`; with blob
+signing off the read happens without the gate). -/
+theorem C07_put_then_get (cfg : KSConfig) (hash tok : Str) (size : Nat) (nowNs : Int)
+    (hl : hash.length = 32) (hx : hash.all isLowerHex = true)
+    (hk : cfg.key ≠ []) (ht : tok ≠ []) (hmac : ∀ k m, (mac k m).length = 20)
+    (hnow : 0 ≤ nowNs) (httl : 1000000000 ≤ cfg.ttlNs)
+    (h32 : (nowNs + cfg.ttlNs) / 1000000000 < 2 ^ 32) :
+    handleGET mac cfg (putReply mac cfg hash size tok nowNs) tok nowNs = .readVolume hash := by
+  have hok := C07_put_reply_verifies mac cfg hash tok size nowNs hl hx hk ht hmac hnow httl h32
+  have hke : cfg.key.isEmpty = false := by cases h : cfg.key <;> simp_all
+  have hte : tok.isEmpty = false := by cases tok <;> simp_all
+  have hlh : ∀ c, isLowerHex c = true → c ≠ '/' := by
+    intro c hc e; subst e; revert hc; decide
+  -- shape of the reply: hash ++ "+" ++ (size ++ "+A…")
+  have hrep : putReply mac cfg hash size tok nowNs =
+      hash ++ '+' :: (natDec size ++ sigHint mac hash tok ((nowNs + cfg.ttlNs) / 1000000000) cfg.ttlNs cfg.key) := by
+    have hp : hashPart (hash ++ '+' :: natDec size) = hash := by
+      have := hashPart_hints (hash := hash) [natDec size] (free_of_all (fun _ h => ne_plus_of_isXDigit (isXDigit_of_isLowerHex h)) hx)
+      simpa using this
+    simp [putReply, hke, hte, signLocator, hp, List.append_assoc]
+  have hnoslash : ∀ c ∈ natDec size ++ sigHint mac hash tok ((nowNs + cfg.ttlNs) / 1000000000) cfg.ttlNs cfg.key, c ≠ '/' := by
+    intro c hc
+    rcases List.mem_append.mp hc with hc | hc
+    · have := Nat.isDigit_of_mem_toDigits (b := 10) (by decide) (by decide) hc
+      intro e; subst e; revert this; decide
+    · simp only [sigHint, List.mem_cons, List.mem_append] at hc
+      rcases hc with (rfl | rfl | hc) | rfl | hc
+      · decide
+      · decide
+      · exact hlh c (List.all_eq_true.mp (hexOfDigest_lowerHex _) c hc)
+      · decide
+      · rcases fmt08x_chars _ c hc with h1 | rfl
+        · exact hlh c h1
+        · decide
+  have hroute : routeHash (putReply mac cfg hash size tok nowNs) = some hash := by
+    rw [hrep]
+    unfold routeHash
+    simp only [List.take_left' hl, List.drop_left' hl, hl, hx, decide_true, Bool.and_self, if_true]
+    have hne : (natDec size ++ sigHint mac hash tok ((nowNs + cfg.ttlNs) / 1000000000) cfg.ttlNs cfg.key).isEmpty = false := by
+      simp [sigHint]
+    have hall : (natDec size ++ sigHint mac hash tok ((nowNs + cfg.ttlNs) / 1000000000) cfg.ttlNs cfg.key).all (· != '/') = true := by
+      rw [List.all_eq_true]; intro c hc; simpa using hnoslash c hc
+    simp [hne, hall]
+  have hA : containsSub ['+', 'A'] (putReply mac cfg hash size tok nowNs) = true := by
+    rw [hrep]
+    have := containsSub_append ['+', 'A'] (hash ++ '+' :: natDec size)
+      (makePermSignature mac hash tok (fmt08x ((nowNs + cfg.ttlNs) / 1000000000)) (ttlHex cfg.ttlNs) cfg.key
+        ++ '@' :: fmt08x ((nowNs + cfg.ttlNs) / 1000000000))
+    simpa [sigHint, List.append_assoc] using this
+  unfold handleGET
+  rw [hroute]
+  simp only [hA, Bool.not_true, Bool.and_false, Bool.false_eq_true, if_false]
+  split
+  · have := ((C07_error_classes mac cfg _ tok nowNs).1).mpr hok
+    rw [this]
+  · rfl
+
+/-! ### Go and the API server outside the common range -/
+
+/-- For every expiry (also before 2²⁸) Go's signed locator is the API server's algorithm applied
+to the *zero-padded* timestamp text: the two implementations differ in nothing but the padding
+of the expiry field — which is also part of the MAC input. -/
+theorem C07_api_server_padding (loc tok key : Str) (exp ttlSecs frac : Nat)
+    (hk : key ≠ []) (ht : tok ≠ []) (hfrac : frac < 1000000000) :
+    signLocator mac loc tok (exp : Int) ((ttlSecs : Int) * 1000000000 + frac) key =
+      Ref.signLocatorTs mac loc tok (padLeft 8 (natHex exp)) ttlSecs key ∧
+    (exp < 2 ^ 28 → padLeft 8 (natHex exp) ≠ natHex exp) := by
+  have httl : ttlSeconds ((ttlSecs : Int) * 1000000000 + frac) = (ttlSecs : Int) := by
+    unfold ttlSeconds
+    rw [Int.tdiv_eq_ediv_of_nonneg (by omega)]
+    omega
+  have hi : intHex (ttlSecs : Int) = natHex ttlSecs := by simp [intHex]
+  have hke : key.isEmpty = false := by cases key <;> simp_all
+  have hte : tok.isEmpty = false := by cases tok <;> simp_all
+  have hf : fmt08x (exp : Int) = padLeft 8 (natHex exp) := by simp [fmt08x]
+  constructor
+  · simp [signLocator, hke, hte, sigHint, makePermSignature, sigMessage, ttlHex, httl, hi, hf,
+      Ref.signLocatorTs, Ref.generateSignature, Ref.message, hashPart, List.append_assoc]
+  · intro hlt h
+    have h7 : (natHex exp).length ≤ 7 := by
+      rw [natHex_length_le_iff exp 7 (by decide)]
+      have : (16 : Nat) ^ 7 = 2 ^ 28 := by decide
+      omega
+    have := congrArg List.length h
+    simp [padLeft] at this
+    omega
+
+/-- Consequently a locator signed by the API server with an expiry before 2²⁸ (7 or fewer hex
+digits) is not even recognised by Go's verifier: `missing`. (Irrelevant in practice — 1978 — but
+it is the exact boundary of `C07_same_as_api_server`.) -/
+theorem C07_go_rejects_short_expiry {loc hash sig ts tok key : Str} {ttlNs nowNs : Int}
+    (hloc : IsUnsignedLocator loc hash) (hs : sig.all isXDigit = true) (hts : ts.all isXDigit = true)
+    (hlen : sig.length + ts.length ≠ 48) :
+    verifySignature mac (loc ++ ['+', 'A'] ++ sig ++ ['@'] ++ ts) tok ttlNs key nowNs = .missing := by
+  obtain ⟨size, hs1, rfl, hl, hx, hsize, hh⟩ := hloc
+  apply verify_of_no_match
+  have hstr : hash ++ hints (size ++ hs1) ++ ['+', 'A'] ++ sig ++ ['@'] ++ ts =
+      hash ++ hints (size ++ hs1 ++ ('A' :: (sig ++ '@' :: ts)) :: []) := by
+    rw [hints_append (size ++ hs1)]
+    simp [List.append_assoc]
+  rw [hstr]
+  have hf : Free '+' ('A' :: (sig ++ '@' :: ts)) := free_sigField hs hts
+  obtain ⟨n1, n2⟩ := not_size_not_hint_of_A (sig ++ '@' :: ts)
+  rw [matchSigned_at_field hl hx hsize hh hf n1 n2 (by simp)]
+  have : parseSigField ('A' :: (sig ++ '@' :: ts)) = none := by
+    have hne : (sig ++ '@' :: ts).length ≠ 49 := by simp; omega
+    have gen : ∀ r : Str, r.length ≠ 49 → parseSigField ('A' :: r) = none := by
+      intro r h; simp [parseSigField, h]
+    exact gen _ hne
+  rw [this]
+
+example : (List.replicate 40 'a').length + (natHex 0xfffffff).length ≠ 48 := by decide
 
 /-! ### SignManifest -/
 
